@@ -78,18 +78,77 @@ def task_region(F, t):
     return nodes, reaches_exit
 
 
+def _region_problems(F, nodes, spawners, allow_return=False):
+    """what the spawning thread does between a task and its join that may race with the task: [(node, text)]"""
+    out = []
+    for nd in nodes:
+        if "omp" in nd.d:
+            if nd.d["omp"] != "task":
+                out.append((nd, "directive", "omp %s between a task and its taskwait" % nd.d["omp"]))
+            continue
+        if any("omp" in a.d for a in nd.ancestors()):
+            continue          # clause expressions of a sibling task directive
+        bad = None
+        if nd.k == "CallExpr":
+            if nd.callee in spawners:
+                continue      # spawns a sibling task (checked where it is defined)
+            bad = "calls %s" % (nd.callee or "a function pointer")
+        elif nd.k in ("BinaryOperator", "CompoundAssignOperator", "UnaryOperator") and \
+                (nd.d.get("op") in ("=", "++", "--") or nd.k == "CompoundAssignOperator"):
+            tgt = nd.kids[0].strip()
+            if tgt.k != "DeclRefExpr" or tgt.d.get("g"):
+                bad = "stores to %s" % tgt.text()
+        elif nd.k == "ReturnStmt" and not allow_return:
+            bad = "returns"
+        if bad:
+            out.append((nd, "use-before-join", bad))
+    return out
+
+
 def r02a(ck, prog, only=None, rule="R02a", floor=12):
     ntasks = 0
     groups = {}
-    for F in prog.lib_functions():
-        tasks = list(omp_nodes(F, "task")) if only is None or F.name in only else []
-        if not tasks:
-            continue
-        for t in tasks:
+    cand = [F for F in prog.lib_functions() if (only is None or F.name in only) and any(True for _ in omp_nodes(F, "task"))]
+    # functions that only spawn a task and return (the join is their caller's): found first, so that a call to one counts as a
+    # spawn in the caller.  OpenMP: a task created inside a function called from task T is a child of T, and T's taskwait waits for it.
+    spawners = {}
+    for F in cand:
+        ts = list(omp_nodes(F, "task"))
+        regions = [task_region(F, t) for t in ts]
+        if any(r[1] for r in regions) and not list(omp_nodes(F, "taskwait")):
+            outside = [F.by_id[e] for b in F.cfg.blocks.values() for e in b.el
+                       if e in F.by_id and not any(F.by_id[e].within(t) or F.by_id[e] is t for t in ts)]
+            if not _region_problems(F, outside, set(), allow_return=True):
+                spawners[F.name] = F
+    for F in cand:
+        for t in omp_nodes(F, "task"):
             ntasks += 1
             where = site(prog, t, "omp task")
             body = t.child("body")
             nodes, reaches_exit = task_region(F, t)
+            if reaches_exit and F.name in spawners:
+                # the join must come in every caller, after the call
+                callers = [(G, c) for G, c in prog.callers_of(F.name) if "/tests/" not in G.file]
+                ck.inst(rule, where, "%s only spawns the task %s and returns: joined in its %d caller(s)" % (
+                    F.name, body.text()[:50] if body is not None else "?", len(callers)), prog.config)
+                if not callers:
+                    ck.violation(rule, rule + "/%s/unjoined" % F.name, where,
+                                 "%s spawns a task and returns, and nothing calls it with a taskwait" % F.name, prog.config)
+                for G, c in callers:
+                    cn, cexit = task_region(G, c)
+                    cw = site(prog, c, F.name)
+                    ck.inst(rule, cw, "%s: the task spawned inside %s is joined by a taskwait on every path" % (G.name, F.name), prog.config)
+                    if cexit:
+                        ck.violation(rule, rule + "/%s/unjoined" % G.name, cw,
+                                     "a path from the call of %s (which spawns the task %s) to the end of %s crosses no omp taskwait: the "
+                                     "parent continues (and returns) while the task may still be writing" % (
+                                         F.name, body.text()[:50] if body is not None else "", G.name), prog.config)
+                        continue
+                    for nd, kind, bad in _region_problems(G, cn, set(spawners)):
+                        ck.violation(rule, rule + "/%s/%s" % (G.name, kind), site(prog, nd),
+                                     "%s %s after the task spawned through %s at %s and before the taskwait: the task's results may not "
+                                     "be there yet" % (G.name, bad, F.name, cw), prog.config)
+                continue
             ck.inst(rule, where, "%s: task %s joined by a taskwait on every path (%d CFG elements in the open region)" % (
                 F.name, body.text()[:50] if body is not None else "?", len(nodes)), prog.config)
             if reaches_exit:
@@ -98,25 +157,10 @@ def r02a(ck, prog, only=None, rule="R02a", floor=12):
                              "returns) while the task may still be writing" % (body.text()[:50] if body is not None else "", F.name),
                              prog.config)
                 continue
-            for nd in nodes:
-                if "omp" in nd.d:
-                    if nd.d["omp"] != "task":
-                        ck.violation(rule, rule + "/%s/directive" % F.name, site(prog, nd),
-                                     "omp %s between a task and its taskwait" % nd.d["omp"], prog.config)
-                    continue
-                if any("omp" in a.d for a in nd.ancestors()):
-                    continue          # clause expressions of a sibling task directive
-                bad = None
-                if nd.k == "CallExpr":
-                    bad = "calls %s" % (nd.callee or "a function pointer")
-                elif nd.k in ("BinaryOperator", "CompoundAssignOperator", "UnaryOperator") and \
-                        (nd.d.get("op") in ("=", "++", "--") or nd.k == "CompoundAssignOperator"):
-                    tgt = nd.kids[0].strip()
-                    if tgt.k != "DeclRefExpr" or tgt.d.get("g"):
-                        bad = "stores to %s" % tgt.text()
-                elif nd.k == "ReturnStmt":
-                    bad = "returns"
-                if bad:
+            for nd, kind, bad in _region_problems(F, nodes, set(spawners)):
+                if kind == "directive":
+                    ck.violation(rule, rule + "/%s/directive" % F.name, site(prog, nd), bad, prog.config)
+                else:
                     ck.violation(rule, rule + "/%s/use-before-join" % F.name, site(prog, nd),
                                  "%s %s after spawning the task at %s and before the taskwait: the task's results may not "
                                  "be there yet" % (F.name, bad, where), prog.config)
@@ -425,54 +469,115 @@ def r02d(ck, prog):
 
 def r02e(ck, prog):
     n = 0
-    allowed_calls = {"omp_set_num_threads", "kalign_run", "aln_param_init"}
+    sinks = {"omp_set_num_threads"}
+
+    def is_flag(t):
+        t = t.split("->")[-1].split(".")[-1]
+        return t in ("run_parallel", "nthreads", "n_threads")
+
+    # tainted variables per function: (function key, decl id) -> name; seeded with the parameters that carry the thread count
+    # by name and grown through arguments handed to repo functions and through local copies
+    work = []
+    seen = set()
+    for F in prog.all_functions:
+        if "/tests/" in F.file or "/lib/" not in F.file:
+            continue
+        for r in F.body.find("DeclRefExpr"):
+            if r.d.get("dk") == "Parm" and r.d["name"] in ("n_threads", "nthreads") and (id(F), r.d["did"]) not in seen:
+                seen.add((id(F), r.d["did"]))
+                work.append((F, r.d["did"]))
+    fields_done = set()
+
+    def judge(F, u):
+        """(ok, why, propagate) for one use u of the thread count in F"""
+        mode = access_mode(u)
+        p, c = u.up(casts=True)
+        if mode == "write":
+            rhs = p.kids[1]
+            if const_value(rhs) is not None or any(x.d.get("name") in ("n_threads", "nthreads") or (id(F), x.d.get("did")) in seen for x in rhs.find("DeclRefExpr")):
+                return True, "assigned", None
+            return False, "assigned from something else", None
+        if p is None:
+            return False, "?", None
+        if p.k == "CStyleCastExpr" and "void" in (p.ty or ""):
+            return True, "discarded ((void) cast)", None
+        if p.k == "BinaryOperator" and p.d["op"] == "=" and c.within(p.kids[1]) and is_flag(p.kids[0].strip().text()):
+            return True, "copied into %s" % p.kids[0].text(), None
+        if p.k == "CallExpr" and p.callee in sinks:
+            return True, "argument of %s" % p.callee, None
+        if p.k == "CallExpr" and p.callee and prog.fn(prog.resolve(p.callee, F.file), required=False) is not None:
+            G = prog.fn(prog.resolve(p.callee, F.file))
+            idx = next((k for k, a in enumerate(p.args) if c.within(a) or c is a), None)
+            if idx is not None and idx < len(G.params):
+                return True, "handed to %s as its parameter %s" % (G.name, G.params[idx]["name"]), (G, G.params[idx]["did"])
+            return False, "argument of %s (parameter not resolved)" % p.callee, None
+        if p.k == "VarDecl" or (p.k == "DeclStmt"):
+            return False, "initialises a local", None
+        if p.k == "BinaryOperator" and p.d["op"] in ("<", "==", "!=", ">", "<=", ">="):
+            other = p.kids[1] if c.within(p.kids[0]) else p.kids[0]
+            if const_value(other) is None:
+                return False, "compared with a run-time value", None
+            gp, gc = p.up(casts=True)
+            if gp is not None and gp.k == "IfStmt" and gc.role == "cond":
+                # a comparison with a constant: must only gate the clamp or the run_parallel flag
+                branches = [b for b in (gp.child("then"), gp.child("else")) if b is not None]
+                stores = [x for b in branches for x in b.walk() if x.k == "BinaryOperator" and x.d["op"] == "="]
+                tg = [x.kids[0].strip().text() for x in stores]
+                calls = [x for b in branches for x in b.calls()]
+                ok = bool(stores) and not calls and all(is_flag(t) for t in tg) and all(const_value(x.kids[1]) is not None for x in stores)
+                return ok, "gates %s" % tg, None
+            # value forms: flag = (n == 1) ? 0 : 1   /   flag = n > 1
+            top = p
+            while True:
+                q, qc = top.up(casts=True)
+                if q is not None and q.k == "ConditionalOperator" and qc.role == "cond" and \
+                        const_value(q.child("then")) is not None and const_value(q.child("else")) is not None:
+                    top = q
+                    continue
+                if q is not None and q.k == "UnaryOperator" and q.d["op"] == "!":
+                    top = q
+                    continue
+                break
+            q, qc = top.up(casts=True)
+            if q is not None and q.k == "BinaryOperator" and q.d["op"] == "=" and qc.within(q.kids[1]) and is_flag(q.kids[0].strip().text()):
+                return True, "its comparison with a constant is stored into %s" % q.kids[0].text(), None
+            return False, "compared with a constant outside the clamp / run_parallel idioms", None
+        return False, "", None
+
+    while work:
+        F, did = work.pop()
+        for u in F.body.find("DeclRefExpr"):
+            if u.d.get("did") != did:
+                continue
+            n += 1
+            where = site(prog, u, u.text())
+            ok, why, prop = judge(F, u)
+            ck.inst("R02e", where, "%s uses the thread count: %s" % (F.name, why), prog.config)
+            if prop is not None and (id(prop[0]), prop[1]) not in seen:
+                seen.add((id(prop[0]), prop[1]))
+                work.append(prop)
+            if not ok:
+                p, c = u.up(casts=True)
+                ck.violation("R02e", "R02e/%s/%s" % (F.name, u.text().replace(" ", "")), where,
+                             "%s uses the thread count %s in %s (%s): the result may depend on the number of threads" % (
+                                 F.name, u.text(), p.text()[:60] if p is not None else "?", why), prog.config)
     for F in prog.all_functions:
         if "/tests/" in F.file:
             continue
-        uses = []
-        for r in F.body.find("DeclRefExpr"):
-            if r.d.get("dk") == "Parm" and r.d["name"] in ("n_threads", "nthreads") and "/lib/" in F.file:
-                uses.append(r)
-        for m in F.body.find("MemberExpr"):
-            if m.d.get("field") == "nthreads" and m.d.get("rec") in ("aln_param",):
-                uses.append(m)
-        for u in uses:
+        for u in F.body.find("MemberExpr"):
+            if not (u.d.get("field") == "nthreads" and u.d.get("rec") in ("aln_param",)):
+                continue
             n += 1
-            mode = access_mode(u)
-            p, c = u.up(casts=True)
             where = site(prog, u, u.text())
-            ok = False
-            why = ""
-            if mode == "write":
-                ok = True
-                why = "assigned"
-                rhs = p.kids[1]
-                # the clamp: n_threads = 1 under n_threads < 1; or field initialised from the parameter
-                if not (const_value(rhs) is not None or any(x.d.get("name") in ("n_threads", "nthreads") for x in rhs.find("DeclRefExpr"))):
-                    ok = False
-            elif p is not None and p.k == "BinaryOperator" and p.d["op"] == "=" and c.within(p.kids[1]) and \
-                    p.kids[0].strip().text().split("->")[-1] in ("nthreads", "n_threads"):
-                ok, why = True, "copied into %s" % p.kids[0].text()
-            elif p is not None and p.k == "CallExpr" and p.callee in allowed_calls:
-                ok, why = True, "argument of %s" % p.callee
-            elif p is not None and p.k == "BinaryOperator" and p.d["op"] in ("<", "==", "!=", ">", "<=", ">="):
-                other = p.kids[1] if c.within(p.kids[0]) else p.kids[0]
-                if const_value(other) is not None:
-                    # a comparison with a constant: must only gate the clamp or the run_parallel flag
-                    gp, gc = p.up(casts=True)
-                    if gp is not None and gp.k == "IfStmt":
-                        then = gp.child("then")
-                        stores = [s for s in then.walk() if s.k == "BinaryOperator" and s.d["op"] == "="]
-                        tg = [s.kids[0].strip().text() for s in stores]
-                        calls = [x for x in then.calls()]
-                        ok = bool(stores) and not calls and all(
-                            t in ("n_threads", "nthreads") or t.endswith("run_parallel") or t.endswith("nthreads") for t in tg)
-                        why = "gates %s" % tg
-            ck.inst("R02e", where, "%s uses the thread count: %s" % (F.name, why or mode), prog.config)
+            ok, why, prop = judge(F, u)
+            ck.inst("R02e", where, "%s uses the thread count: %s" % (F.name, why), prog.config)
+            if prop is not None:
+                raise AnalysisBroken("R02e: aln_param.nthreads is handed to %s; following a field value into a callee is not implemented" % prop[0].name)
             if not ok:
+                p, c = u.up(casts=True)
                 ck.violation("R02e", "R02e/%s/%s" % (F.name, u.text().replace(" ", "")), where,
-                             "%s uses the thread count %s in %s: the result may depend on the number of threads" % (
-                                 F.name, u.text(), p.text()[:60] if p is not None else "?"), prog.config)
+                             "%s uses the thread count %s in %s (%s): the result may depend on the number of threads" % (
+                                 F.name, u.text(), p.text()[:60] if p is not None else "?", why), prog.config)
     ck.floor("R02e", n, 5, "uses of the thread count")
     # run_parallel is consumed only by if() clauses
     for rec in ("aln_mem", "msa"):
@@ -561,24 +666,53 @@ def r02g(ck, prog):
     if stores(P) != stores(S):
         ck.violation("R02g", "R02g/aln_runner/stores", site(prog, P),
                      "aln_runner and aln_runner_serial set up the sub-problem differently: %s vs %s" % (stores(P), stores(S)), prog.config)
-    # aln_continue: every case recurses through both siblings under the serial flag
+    # aln_continue: every case recurses through both siblings under the serial flag.  Decided on the flattened code
+    # (private helpers inlined): with the flag set only aln_runner_serial is reached, with the flag clear only aln_runner,
+    # and both ways the same number of recursions happens at the same places
+    from ..inline import flatten, executed, resolve
     C = prog.fn("aln_continue")
-    ncase = 0
-    for ifs in C.body.find("IfStmt"):
-        c = ifs.child("cond").strip(casts=True)
-        if c.k == "DeclRefExpr" and c.d["name"] == "serial":
-            ncase += 1
-            th = [x.callee for x in ifs.child("then").calls()]
-            el = [x.callee for x in ifs.child("else").calls()] if ifs.child("else") is not None else []
-            if th != ["aln_runner_serial"] or el != ["aln_runner"]:
-                ck.violation("R02g", "R02g/aln_continue/recursion", site(prog, ifs),
-                             "aln_continue recurses into %s / %s under the serial flag (expected aln_runner_serial / aln_runner)" % (th, el),
+    sp = [p_ for p_ in C.params if p_["name"] == "serial"]
+    if len(sp) != 1:
+        raise AnalysisBroken("R02g slot: aln_continue has no parameter 'serial'")
+    sdid = sp[0]["did"]
+
+    def decide_with(val):
+        def decide(cond, env):
+            x, e = resolve(cond, env)
+            neg = False
+            while True:
+                if x.k == "UnaryOperator" and x.d["op"] == "!":
+                    neg = not neg
+                    x, e = resolve(x.kids[0], e)
+                    continue
+                if x.k == "BinaryOperator" and x.d["op"] in ("==", "!=") and const_value(x.kids[1]) is not None:
+                    if (x.d["op"] == "==") == (const_value(x.kids[1]) == 0):
+                        neg = not neg
+                    x, e = resolve(x.kids[0], e)
+                    continue
+                break
+            if x.k == "DeclRefExpr" and x.d.get("did") == sdid:
+                return val != neg
+            if any(r.k == "DeclRefExpr" and r.d.get("did") == sdid for r in x.walk()):
+                raise AnalysisBroken("R02g: a test of the serial flag in aln_continue is not understood: %s" % cond.text())
+            return None
+        return decide
+    ev = flatten(prog, C, [C.body], exclude=("aln_runner", "aln_runner_serial", "aln_continue"))
+    runs = {}
+    for val in (True, False):
+        seq, _ = executed(ev, decide_with(val))
+        runs[val] = [e for e in seq if e[0] == "call" and e[1] in ("aln_runner", "aln_runner_serial")]
+    ncase = len(runs[True])
+    for val, want in ((True, "aln_runner_serial"), (False, "aln_runner")):
+        for e in runs[val]:
+            if e[1] != want:
+                ck.violation("R02g", "R02g/aln_continue/recursion", site(prog, e[2]),
+                             "aln_continue recurses into %s when the serial flag is %s (expected %s)" % (e[1], "set" if val else "clear", want),
                              prog.config)
-    direct = [c for c in C.body.calls("aln_runner", "aln_runner_serial") if not any(
-        a.k == "IfStmt" and a.child("cond").strip(casts=True).k == "DeclRefExpr" for a in c.ancestors())]
-    for c in direct:
-        ck.violation("R02g", "R02g/aln_continue/unguarded", site(prog, c),
-                     "aln_continue calls %s without consulting the serial flag" % c.callee, prog.config)
+    if len(runs[True]) != len(runs[False]):
+        ck.violation("R02g", "R02g/aln_continue/unguarded", site(prog, C),
+                     "aln_continue recurses %d time(s) with the serial flag set and %d time(s) with it clear" % (len(runs[True]), len(runs[False])),
+                     prog.config)
     ck.inst("R02g", site(prog, C, "recursion"), "aln_continue: %d recursion sites select the sibling by the serial flag" % ncase, prog.config)
     ck.floor("R02g", ncase, 12, "recursion sites in aln_continue")
 
